@@ -1,6 +1,6 @@
 (* Properties/C19.v — default categories and modifiers (C19) *)
 From Coq Require Import Sorted.
-From HpoV Require Import Gen.Consts Model.Base Model.Group Model.Onto Model.Query Model.Script Proofs.ClosureP Proofs.DistP Proofs.C19P Proofs.C19B.
+From HpoV Require Import Gen.Consts Model.Base Model.Group Model.Onto Model.Query Model.Script Proofs.ClosureP Proofs.DistP Proofs.C19P Proofs.C19B Run.World Run.C19 Proofs.GroupP Proofs.C19S.
 
 (* ROOT_ID, ROOT_ID_CAT and PHENOTYPE_ID are regenerated from /repo's source on every run
    (Gen/Consts.v); the statements below are re-checked against the current values. *)
@@ -57,6 +57,18 @@ Theorem C19_categories_exact_caches : forall o t, qgood o -> In t (ar_terms (o_a
   forall c, In c (categories o t) <-> In c (o_cat o) /\ (c = t_id t \/ anc (o_arena o) (t_id t) c).
 Proof. exact qgood_categories. Qed.
 
+(* SOUNDNESS OF THE EXECUTABLE STATEMENT: what an observation accepted by defaults_ok (spec_C19) says *)
+Theorem C19_accepted_observation_means : forall ts cat mo, defaults_ok ts cat mo = true ->
+  exists root ph, sfind 1 ts = Some root /\ sfind 118 ts = Some ph /\
+    (forall x, In x mo <-> In x (s_children root) /\ x <> 118) /\
+    (forall x, In x cat <-> (In x (s_children root) /\ x <> 118) \/ In x (s_children ph)) /\
+    forall t, In t ts ->
+      (s_ismod t = 1 <-> exists r, In r mo /\ (r = s_id t \/ In r (s_allp t))) /\
+      (s_ismod t = 0 \/ s_ismod t = 1) /\
+      sorted (s_cats t) /\
+      (forall c, In c (s_cats t) <-> In c cat /\ (c = s_id t \/ In c (s_allp t))).
+Proof. exact defaults_ok_sound. Qed.
+
 Print Assumptions C19_default_modifier.
 Print Assumptions C19_default_categories.
 Print Assumptions C19_is_modifier.
@@ -68,3 +80,4 @@ Print Assumptions C19_builder_is_modifier.
 Print Assumptions C19_builder_categories.
 Print Assumptions C19_is_modifier_exact_caches.
 Print Assumptions C19_categories_exact_caches.
+Print Assumptions C19_accepted_observation_means.
